@@ -212,10 +212,122 @@ def r_loop_state(ck: Checker) -> None:
     ck.need(n >= 10, f"per-iteration containers found ({n})")
 
 
+# (function, key) -> why the remembered answer may ignore the other varying values (confirmed by reading)
+MEMO_TRIAGE = {
+    ("math_simplification:Goebner.simplify_equalities", "solve_for"): "by design a needed variable is defined by ONE equation: once an expression was solved for it, no other expression is (the expression only decides which equation that is)",
+}
+
+
+def _names(node: ast.AST) -> set[str]:
+    return {x.id for x in ast.walk(node) if isinstance(x, ast.Name)}
+
+
+def r_memo_key(ck: Checker) -> None:
+    """`if K in S: continue / return <remembered>` with `S.add(K)` / `S[K] = ..` elsewhere in the function is a memo:
+    the work that is skipped on a hit may depend on nothing that varies besides K - otherwise the answer remembered for
+    one situation is reused in another (order predicates per predicate AND position, a split per sub-body AND rest, ...)"""
+    from ..core import moved_lookup
+
+    n = 0
+    for func in ck.prg.funcs.values():
+        if isinstance(func.node, ast.Lambda):
+            continue
+        parents: dict[int, ast.AST] = {}
+        for a in ast.walk(func.node):
+            for c in ast.iter_child_nodes(a):
+                parents[id(c)] = a
+        params = [x for x in func.params() if x not in ("self", "cls")]
+        for node in ast.walk(func.node):
+            if not isinstance(node, ast.If):
+                continue
+            test = node.test
+            if isinstance(test, ast.BoolOp) and isinstance(test.op, ast.And):
+                # `S is not None and K in S`
+                mem = [v for v in test.values if isinstance(v, ast.Compare) and len(v.ops) == 1 and isinstance(v.ops[0], ast.In)]
+                rest_ = [v for v in test.values if v not in mem]
+                if len(mem) == 1 and all(isinstance(v, ast.Compare) and isinstance(v.ops[0], (ast.Is, ast.IsNot)) for v in rest_):
+                    test = mem[0]
+            if not (isinstance(test, ast.Compare) and len(test.ops) == 1 and isinstance(test.ops[0], (ast.In, ast.NotIn))):
+                continue
+            key, store = test.left, test.comparators[0]
+            ktxt, stxt = unparse(key), unparse(store)
+            if isinstance(key, ast.Constant):
+                continue
+            fills = [m for m in ast.walk(func.node)
+                     if (isinstance(m, ast.Call) and isinstance(m.func, ast.Attribute) and m.func.attr in ("add", "append") and unparse(m.func.value) == stxt and m.args and unparse(m.args[0]) == ktxt)
+                     or (isinstance(m, ast.Assign) and isinstance(m.targets[0], ast.Subscript) and unparse(m.targets[0].value) == stxt and unparse(m.targets[0].slice) == ktxt)]
+            if not fills:
+                continue
+            hit = node.body if isinstance(test.ops[0], ast.In) else node.orelse
+            miss = node.orelse if isinstance(test.ops[0], ast.In) else node.body
+            # enclosing function-level nest of the `if`
+            cur: ast.AST = node
+            loop = None
+            while id(cur) in parents and parents[id(cur)] is not func.node:
+                cur = parents[id(cur)]
+                if isinstance(cur, (ast.For, ast.While)) and loop is None:
+                    loop = cur
+                if isinstance(cur, (ast.FunctionDef, ast.Lambda)):
+                    break
+            if isinstance(cur, (ast.FunctionDef, ast.Lambda)) and cur is not func.node:
+                continue  # belongs to a nested function, which is analysed on its own
+            early = bool(hit) and isinstance(hit[-1], (ast.Continue, ast.Return, ast.Break))
+            if not early and hit:
+                continue  # both branches do work: not a skip
+            # the statements a hit skips: the miss branch plus (for an early exit) whatever follows the `if` in its block
+            holder = parents.get(id(node))
+            block = next((getattr(holder, f) for f in ("body", "orelse", "finalbody") if isinstance(getattr(holder, f, None), list) and any(s is node for s in getattr(holder, f))), [])
+            following = block[[i for i, s in enumerate(block) if s is node][0] + 1:] if early else []
+            skipped = list(miss) + list(following)
+            if not skipped:
+                continue
+            used = set().union(*[_names(s) for s in skipped]) if skipped else set()
+            covered = _names(key) | _names(store)
+            # what varies between two executions of the guard
+            varying: set[str] = set()
+            if loop is not None and isinstance(loop, ast.For):
+                lp: ast.AST = node
+                while id(lp) in parents and parents[id(lp)] is not func.node:
+                    lp = parents[id(lp)]
+                    if isinstance(lp, ast.For):
+                        tnames = _names(lp.target)
+                        varying |= tnames
+                        if isinstance(lp.iter, ast.Call) and isinstance(lp.iter.func, ast.Attribute) and lp.iter.func.attr == "items" and isinstance(lp.target, ast.Tuple) and _names(lp.target.elts[0]) <= covered:
+                            covered |= tnames  # the value of a dict entry is determined by its key
+                scope: ast.AST = loop
+            else:
+                varying |= set(params)
+                scope = func.node
+            # locals computed from varying values vary as well
+            for _ in range(4):
+                for s in ast.walk(scope):
+                    if isinstance(s, (ast.Assign, ast.AnnAssign)) and s.value is not None and _names(s.value) & varying:
+                        for tg in (s.targets if isinstance(s, ast.Assign) else [s.target]):
+                            varying |= {x.id for x in ast.walk(tg) if isinstance(x, ast.Name) and isinstance(x.ctx, ast.Store)}
+            # ... unless they are computed from the key alone
+            for _ in range(3):
+                for s in ast.walk(func.node):
+                    if isinstance(s, ast.Assign) and len(s.targets) == 1 and isinstance(s.targets[0], ast.Name) and _names(s.value) & covered and not (_names(s.value) & varying) - covered:
+                        covered.add(s.targets[0].id)
+            loose = sorted((used & varying) - covered)
+            n += 1
+            ok = not loose
+            why = ""
+            if not ok:
+                hit_t = MEMO_TRIAGE.get((func.short, ktxt)) or moved_lookup(MEMO_TRIAGE, func.short, ktxt, {f.short for f in ck.prg.funcs.values()})
+                if hit_t:
+                    ok, why = True, f" (triaged: {hit_t})"
+            ck.add(f"{tag(func.module.name)} {func.name}: what `{short(ktxt, 40)} in {short(stxt, 30)}` skips depends only on the remembered key", ok, func, node,
+                   f"skipped on a hit: {len(skipped)} statement(s) using {sorted(used & varying)}; not determined by the key: {loose}{why}",
+                   "an answer remembered under an incomplete key is reused where it does not apply: rules that define an order predicate are not emitted for a second position, a split computed for one rule is applied to another, an index records only the first statement")
+    ck.need(n >= 3, f"memo guards found ({n})")
+
+
 _EXTRA = module_extra()
 
 RULES = [
     Rule("GEN.class-state", ("C17", "C01"), r_class_state, extra=_EXTRA),
     Rule("GEN.index-space", ("C01",), r_index_space, extra=_EXTRA),
     Rule("GEN.loop-state", ("C01",), r_loop_state, extra=_EXTRA),
+    Rule("GEN.memo-key", ("C01",), r_memo_key, extra=_EXTRA),
 ]
